@@ -26,7 +26,8 @@ META = {
     "explanation": "Static typestate / effect analysis of the `plan report` command: every temporary file or "
                    "directory is followed over all CFG paths (normal, exception, SystemExit raised by callees) to a "
                    "release or ownership transfer; every file-creating call reachable from the command is "
-                   "enumerated and its path expression's dataflow origin is classified. Necessary conditions only.",
+                   "enumerated and its path expression's dataflow origin is classified. Necessary conditions only."
+                   " Round 4: the output directory is not taken from the environment in preference to --output-dir.",
     "assumptions": ["Path(name)/str(name) and plain moves cannot raise (DESIGN A.3)",
                     "exceptions raised inside an except handler (double faults) are out of scope",
                     "KeyboardInterrupt at arbitrary points is reported as informational, not as a violation"],
